@@ -9,6 +9,7 @@ mod c14;
 mod c15;
 mod c16;
 mod c18;
+mod c19;
 mod c20;
 mod c17reg;
 mod stream_mock;
@@ -31,6 +32,7 @@ fn main() {
         "c15" => c15::run(&cases),
         "c16" => c16::run(&cases),
         "c18" => c18::run(&cases),
+        "c19" => c19::run(&cases),
         "c20" => c20::run(&cases),
         "c12" | "c13" | "c17" | "ua" => ua::run(&cases),
         "c08" => c08::run(&cases),
